@@ -119,7 +119,11 @@ func runCheck(id, tier string) int {
 	var samples []any
 	total := partReport{Exhaustive: true}
 	engineErr := ""
+	only := os.Getenv("VERIF_PARTS") // development aid: run only the named parts; the evidence then goes to a side directory
 	for _, p := range ck.Parts {
+		if only != "" && !strings.Contains(","+only+",", ","+p.Name+",") {
+			continue
+		}
 		var rep partReport
 		var vs []violation
 		var smp []any
@@ -227,6 +231,9 @@ func runCheck(id, tier string) int {
 	if r := os.Getenv("VERIF_REPO"); r != "" && r != "/repo" {
 		// a scratch tree (seeded change) is being checked: its results are not evidence about /repo
 		evDir = filepath.Join(r, ".verif-evidence")
+	}
+	if os.Getenv("VERIF_PARTS") != "" {
+		evDir = filepath.Join(os.TempDir(), "verif-partial-evidence")
 	}
 	os.MkdirAll(evDir, 0o755)
 	if err := os.WriteFile(filepath.Join(evDir, id+".json"), eb, 0o644); err != nil {
@@ -542,6 +549,9 @@ func runEnum(b *built, prop string, p part, tier string) (partReport, []violatio
 	sc.Buffer(make([]byte, 1<<20), 64<<20)
 	for sc.Scan() {
 		l := sc.Text()
+		if strings.HasPrefix(l, "STRESS") { // VERIF_CELL_FILTER debugging output
+			fmt.Fprintln(os.Stderr, l)
+		}
 		if strings.HasPrefix(l, "ENUM ") {
 			var r enumResult
 			if e := json.Unmarshal([]byte(l[5:]), &r); e != nil {
